@@ -806,6 +806,17 @@ def round8_shapes():
                      [pipeline("TOP", "", "map<int> n",
                                [call("MK"), call("USE", binds={"p": split(ref("MK", "byk"))}, mode="map")],
                                {"n": ref("USE", "n")})], "TOP", {}))
+    # two nested mapped calls whose collections both come from ONE stage's output: the outer over
+    # a typed map of structs, the inner over an array member of the element
+    P.append(program("nestdyn_same_source", [struct("ITEMS", "int[] items, int w")],
+                     [S_const("GEN", "map<ITEMS> result", {"result": {"a": {"items": [1, 2], "w": 1}, "b": {"items": [3, 4], "w": 2}}}),
+                      S_echo("Q")],
+                     [pipeline("P", "ITEMS x", "int[] ys",
+                               [call("Q", binds={"x": split(self_("x", "items"))}, mode="array")],
+                               {"ys": ref("Q", "y")}),
+                      pipeline("TOP", "", "map<int[]> o",
+                               [call("GEN"), call("P", binds={"x": split(ref("GEN", "result"))}, mode="map")],
+                               {"o": ref("P", "ys")})], "TOP", {}))
     return P
 
 
